@@ -62,8 +62,15 @@ class LocalPipelineIo(PipelineIo):
         cdir = os.path.split(fpath)[0]
         os.makedirs(cdir, exist_ok=True)
 
-        with open(fpath, 'wb') as f:
+        # Write under a temporary name and rename into place, so that an
+        # interrupted transfer never leaves a truncated item in the store (and
+        # never damages an item that an earlier run had already completed).
+        tmp_path = fpath + '.tmp'
+
+        with open(tmp_path, 'wb') as f:
             shutil.copyfileobj(source, f)
+
+        os.replace(tmp_path, fpath)
 
     def list_items(self, *path):
         dpath = self._make_item_name(path)
